@@ -5,6 +5,8 @@ import (
 	"compress/gzip"
 	"context"
 	"fmt"
+	"google.golang.org/grpc"
+	"google.golang.org/grpc/metadata"
 	"io"
 	"math"
 	"net/http"
@@ -172,6 +174,11 @@ func (e *c04Env) impl() *dynImpl {
 		m := dynamicpb.NewMessage(out)
 		if err := proto.Unmarshal(e.reply, m); err != nil {
 			panic("c04: scripted reply does not parse: " + err.Error())
+		}
+		// a handler may send its header metadata before it returns the reply; the response must be
+		// labelled and encoded the same way (requested by the harness on every other request)
+		if md, ok := metadata.FromIncomingContext(ctx); ok && len(md.Get("x-verif-early")) > 0 {
+			grpc.SendHeader(ctx, metadata.Pairs("x-early", "1"))
 		}
 		return m, nil
 	}}
@@ -372,7 +379,7 @@ type c04Resp struct {
 	ctv      string
 }
 
-func c04Do(mux *larking.Mux, verb, path, reqct, accept, acceptEnc string, reqbody []byte) c04Resp {
+func c04Do(mux *larking.Mux, verb, path, reqct, accept, acceptEnc string, reqbody []byte, early bool) c04Resp {
 	var rd io.Reader
 	if len(reqbody) > 0 {
 		rd = bytes.NewReader(reqbody)
@@ -386,6 +393,9 @@ func c04Do(mux *larking.Mux, verb, path, reqct, accept, acceptEnc string, reqbod
 	}
 	if a := c04Hdr(acceptEnc); len(a) > 0 {
 		r.Header["Accept-Encoding"] = a
+	}
+	if early {
+		r.Header.Set("X-Verif-Early", "1")
 	}
 	w, p := serveRec(mux, r)
 	if p != "" {
@@ -502,7 +512,7 @@ func c04Run(o *out, input string) {
 			o.emit(input, st+" - - 1 0 - none:0 - "+oracle)
 			return
 		}
-		rs := c04Do(cm.mux, md.Verb, md.Tmpl, f[4], f[5], f[6], reqbody)
+		rs := c04Do(cm.mux, md.Verb, md.Tmpl, f[4], f[5], f[6], reqbody, false)
 		if rs.panicked {
 			o.emit(input, "panic - - 1 0 - none:0 - "+oracle)
 			return
@@ -519,6 +529,27 @@ func c04Run(o *out, input string) {
 			code = c04ErrCode(rs.ctv, variant == 1, rs.body)
 		}
 		o.emit(input, fmt.Sprintf("%d %s %s %s %d %s %s %s %s", rs.status, rs.ct, rs.ce, rs.ceok, len(rs.body), raw, dec, code, oracle))
+		if rs.status == 200 && (len(input)+len(reqbody))%2 == 1 {
+			// the same call with a handler that sends its header metadata before it returns the reply:
+			// the response must be labelled and encoded identically
+			re := c04Do(cm.mux, md.Verb, md.Tmpl, f[4], f[5], f[6], reqbody, true)
+			obs := "same"
+			// bodies are compared decoded: the byte order of a marshalled dynamic message is not stable
+			dec2 := "none:0"
+			if sel != nil && !re.panicked && re.status == 200 {
+				dec2 = c04DecEq(re.ctv, variant == 1, re.body, sel)
+			}
+			if re.panicked || re.status != rs.status || re.ct != rs.ct || re.ce != rs.ce || dec2 != dec {
+				obs = fmt.Sprintf("diff status=%d/%d ct=%s/%s ce=%s/%s decoded=%s/%s", rs.status, re.status, rs.ct, re.ct, rs.ce, re.ce, dec, dec2)
+				obs = strings.ReplaceAll(obs, " ", "_")
+				obs = "diff " + obs[5:]
+			}
+			o.count("early-header")
+			o.emit("C04H "+strings.Join(f[1:], " "), obs)
+		}
+	case "C04H":
+		// replayed through its C04 twin
+		c04Run(o, "C04 "+strings.Join(f[1:], " "))
 	case "C04R":
 		e := c04Setup()
 		sel, body := string(unhx(f[1])), string(unhx(f[2]))
@@ -535,7 +566,7 @@ func c04Run(o *out, input string) {
 			o.emit(input, st+" "+oracle)
 			return
 		}
-		rs := c04Do(mux, "POST", "/c04r/sel", "-", "-", "-", nil)
+		rs := c04Do(mux, "POST", "/c04r/sel", "-", "-", "-", nil, false)
 		if rs.panicked {
 			o.emit(input, "acc panic none:0 "+oracle)
 			return
